@@ -186,6 +186,14 @@ func readFilesAsKeys(files []string, basePath string, encryptor keystore.KeyEncr
 func (store *KeyBackuper) Export(exportIDs []keystore.ExportID, mode keystore.ExportMode) (*keystore.KeysBackup, error) {
 	var exportedKeys []*keystore.Key
 	var err error
+	// Secret key material selected explicitly. It must stay intact until it is serialized
+	// into the backup, and is wiped when Export returns.
+	var secretKeys [][]byte
+	defer func() {
+		for _, key := range secretKeys {
+			utils.ZeroizeBytes(key)
+		}
+	}()
 
 	if len(exportIDs) != 0 {
 		for _, exportID := range exportIDs {
@@ -215,11 +223,11 @@ func (store *KeyBackuper) Export(exportIDs []keystore.ExportID, mode keystore.Ex
 					return nil, err
 				}
 
-				utils.ZeroizeBytes(keypair.Private.Value)
 				exportedKeys = append(exportedKeys, &keystore.Key{
 					Name:    PoisonKeyFilename,
 					Content: keypair.Private.Value,
 				})
+				secretKeys = append(secretKeys, keypair.Private.Value)
 			case keystore.KeyStoragePublic:
 				key, err := store.keyStore.GetClientIDEncryptionPublicKey(exportID.ContextID)
 				if err != nil {
@@ -244,33 +252,33 @@ func (store *KeyBackuper) Export(exportIDs []keystore.ExportID, mode keystore.Ex
 					log.WithError(err).Error("Cannot read client storage private key")
 					return nil, err
 				}
-				utils.ZeroizeBytes(key.Value)
 				exportedKeys = append(exportedKeys, &keystore.Key{
 					Name:    GetServerDecryptionKeyFilename(exportID.ContextID),
 					Content: key.Value,
 				})
+				secretKeys = append(secretKeys, key.Value)
 			case keystore.KeySymmetric:
 				key, err := store.keyStore.GetClientIDSymmetricKey(exportID.ContextID)
 				if err != nil {
 					log.WithError(err).Error("Cannot read client symmetric key")
 					return nil, err
 				}
-				utils.ZeroizeBytes(key)
 				exportedKeys = append(exportedKeys, &keystore.Key{
 					Name:    getClientIDSymmetricKeyName(exportID.ContextID),
 					Content: key,
 				})
+				secretKeys = append(secretKeys, key)
 			case keystore.KeySearch:
 				key, err := store.keyStore.GetHMACSecretKey(exportID.ContextID)
 				if err != nil {
 					log.WithError(err).Error("Cannot read client symmetric key")
 					return nil, err
 				}
-				utils.ZeroizeBytes(key)
 				exportedKeys = append(exportedKeys, &keystore.Key{
 					Name:    getHmacKeyFilename(exportID.ContextID),
 					Content: key,
 				})
+				secretKeys = append(secretKeys, key)
 			default:
 				return nil, errors.New("unexpected ExportID KeyKind")
 			}
